@@ -54,7 +54,8 @@ def run(ctx):
     mc = open(os.path.join(CFG, 'Session.c14.mc.cfg')).read()
     if quick:
         mc = mc.replace('MaxLen = 6', 'MaxLen = 5')
-    ctx.tlc('Session.c14.mc', 'Session', mc, timeout=900)
+    r = ctx.tlc('Session.c14.mc', 'Session', mc, timeout=900, coverage=True)
+    ctx.extra['design_action_coverage'] = SJ.require_coverage(r, ['ToDict', 'FromDict', 'JsonTrip', 'Save', 'Load', 'Sample', 'Query'], ())
     want = []
     for b in B.all_bindings():
         if b.name == 'GaussianMultivariate3cond':
